@@ -18,11 +18,33 @@ class ShapeNotRecognised(Exception):
 
 # --------------------------------------------------------------------------------------------
 class Facts:
-    def __init__(self, d):
+    def __init__(self, d, known=None):
+        """`known`: the reference vocabulary of function names (rules/known_functions.txt).  Calls to
+        crate-local functions outside it are inlined into their callers (wa/inline.py), and such
+        helper functions are not listed as bodies of their own once every use is a direct call."""
         self.d = d
         self.meta = d.get("_meta", {})
         self._bodies = {}
         self._cv = {}
+        self.known = set(known) if known is not None else None
+        self.inlined = {}      # caller -> [helpers inlined into it]
+        self.absorbed = set()
+        if self.known is not None:
+            called = set()
+            for n, b in d["bodies"].items():
+                for blk in b["blocks"]:
+                    t = blk["term"]
+                    if t["k"] == "call":
+                        c = t.get("resolved") or t.get("callee")
+                        if c in d["bodies"] and self._is_helper(c):
+                            called.add(c)
+            self.absorbed = called
+
+    def _is_helper(self, name):
+        if self.known is None or name in self.known:
+            return False
+        b = self.d["bodies"].get(name)
+        return b is not None and b["kind"] in ("Fn", "AssocFn")
 
     def has_body(self, name):
         return name in self.d["bodies"]
@@ -31,12 +53,20 @@ class Facts:
         if name not in self._bodies:
             if name not in self.d["bodies"]:
                 raise AnchorMissing("function `%s` not found in the crate" % name)
-            self._bodies[name] = Body(self, self.d["bodies"][name])
+            d = self.d["bodies"][name]
+            if self.known is not None:
+                from .inline import inline_body
+                d, done = inline_body(self.d["bodies"], d, self._is_helper)
+                if done:
+                    self.inlined[name] = sorted(set(done))
+            self._bodies[name] = Body(self, d)
         return self._bodies[name]
 
     def body_names(self, real_only=True):
         for n, b in self.d["bodies"].items():
             if real_only and b["kind"] == "Promoted":
+                continue
+            if real_only and n in self.absorbed:
                 continue
             yield n
 
@@ -287,9 +317,10 @@ INT_RANGES = {
 
 
 class Body:
-    def __init__(self, facts, d):
+    def __init__(self, facts, d, dead_edges=()):
         self.facts = facts
         self.d = d
+        self.dead_edges = frozenset(dead_edges)
         self.name = d["name"]
         self.blocks = d["blocks"]
         self.n = len(self.blocks)
@@ -311,7 +342,7 @@ class Body:
                             self.upvar_names[e["i"]] = dbg["name"]
                             break
         self.normal = [i for i in range(self.n) if not self.blocks[i]["cleanup"]]
-        self.succ = {i: self._succ(i) for i in self.normal}
+        self.succ = {i: [s_ for s_ in self._succ(i) if (i, s_) not in self.dead_edges] for i in self.normal}
         self.pred = defaultdict(list)
         for a, ss in self.succ.items():
             for s_ in ss:
@@ -341,6 +372,15 @@ class Body:
         if k == "otherterm":
             return [b for b in t.get("succ", []) if not self.blocks[b]["cleanup"]]
         return []
+
+    def restrict(self, dead_edges):
+        """The same body with some CFG edges declared infeasible (specialisation under a hypothesis):
+        block and statement numbering is unchanged, reachability, dominance and reaching definitions
+        are those of the pruned graph."""
+        dead = set(self.dead_edges) | set(dead_edges)
+        if dead == set(self.dead_edges):
+            return self
+        return Body(self.facts, self.d, dead)
 
     def term(self, bb):
         return self.blocks[bb]["term"]
